@@ -260,7 +260,8 @@ impl Meta {
     /// deletions take effect at the maintain that follows the round, so that the next round recycles
     fn churn(&self, ents: &Entities) {
         let round = self.sh.round.load(Ordering::SeqCst);
-        let es: Vec<Entity> = (0..3).map(|_| ents.create()).collect();
+        // (a varying number, so that the list of recycled indices runs empty in the middle of a stage)
+        let es: Vec<Entity> = (0..(2 + (round + self.id) % 3)).map(|_| ents.create()).collect();
         {
             let mut made = self.sh.made.lock().unwrap();
             for e in &es {
@@ -315,7 +316,14 @@ impl Meta {
 
 /// installed at the library's yield points (cfg specs_verif) while a dispatch runs: now and then the
 /// thread gives way or spins for a moment between two atomic steps
+static HOOK_CALLS: std::sync::atomic::AtomicU64 = std::sync::atomic::AtomicU64::new(0);
+
 fn jitter(_site: u32) {
+    // a thread that passes yield points without end makes no progress (a retry loop that cannot succeed):
+    // reported as a panic of the system instead of hanging the run
+    if HOOK_CALLS.fetch_add(1, Ordering::Relaxed) > 20_000_000 {
+        panic!("no progress: more than 20 million atomic steps of shared-access allocation in one dispatch run");
+    }
     thread_local!(static RNG: std::cell::Cell<u64> = std::cell::Cell::new(0x9E3779B97F4A7C15));
     let x = RNG.with(|c| {
         let mut x = c.get() ^ (std::thread::current().id().as_u64_compat());
@@ -430,6 +438,7 @@ fn dispatch(script: &Value) -> Value {
         made: Mutex::new(vec![]),
     });
     // widen the windows between the atomic steps of shared-access creation / deletion
+    HOOK_CALLS.store(0, Ordering::Relaxed);
     specs::verif::set_yield_hook(Some(jitter as fn(u32)));
     let mut world = new_world();
     let mut sys_js = vec![];
